@@ -94,6 +94,16 @@ def rule_lock(ctx):
                     k = max(i_ for i_, c in enumerate(e.ctx) if c[0] == "with")
                     frames.append((w[-1][0], w[-1][1], (id(w[-1][2]),) + tuple((c[1], c[2]) for c in e.ctx[:k] if c[0] == "loop")))
                     lock_names.update(w[-1][1])
+            # the operations of one message complete in program order only if each is awaited before the next is started:
+            # handing their awaitables to gather / wait / create_task starts them together (a flush may finish before the
+            # write it was meant to push out)
+            out_terms = [e.data["term"] for e in outs]
+            for e in pa.events:
+                if e.kind == "call" and isinstance(e.data.get("callee"), Foreign) and e.data["callee"].dotted.split(".")[-1] in ("gather", "wait", "create_task", "ensure_future", "as_completed", "TaskGroup"):
+                    handed = [t for t in out_terms if any(a is t or mentions(a, lambda x, t=t: x is t) for a in list(e.data.get("args") or []) + list((e.data.get("kwargs") or {}).values()))]
+                    if handed and len(out_terms) > 1:
+                        ctx.violated("C19.LOCK", co.short, f"{[show(t)[:40] for t in handed]} are started together through asyncio.{e.data['callee'].dotted.split('.')[-1]} instead of being awaited one after the other: the operations of one message ({[show(t)[:30] for t in out_terms]}) can complete out of order (a flush before the write it belongs to leaves the message in the buffer)", fi=co, node=e.node, text=f"concurrent-ops:{e.data['callee'].dotted.split('.')[-1]}")
+                        bad = True
             if frames and len({f[2] for f in frames}) != 1:
                 ctx.violated("C19.LOCK", co.short, "the output operations of one message are spread over several lock regions: another message can get in between", fi=co, text="split-lock")
                 bad = True
